@@ -1,4 +1,5 @@
 """C50 — queries accepted over unbounded inputs keep producing results."""
+import pending
 from jt import *
 
 TECHNIQUE = 'finite-domain constant propagation over MIR (A1); guard dominance on the sanity check; declared-vs-actual emission cross-table'
@@ -8,7 +9,12 @@ EXPLANATION = ('(a) SanityCheckPlan::check_finiteness_requirements: with bounded
                'join type (HashJoinExec, NestedLoopJoinExec): a type declared Incremental (with a bounded build side and an '
                'incremental probe side) must not be a type whose rows the operator emits only in its final phase '
                '(need_produce_result_in_final) — otherwise a plan over an unbounded probe side is accepted and never '
-               'delivers rows that a finite prefix determines. Liveness of streams at run time is not decided.')
+               'delivers rows that a finite prefix determines. (c) Pending needs a wake source: in every poll body of the engine crates that '
+               'constructs Poll::Pending (72 today: streams, futures, their helpers), on every path the construction is preceded by an inner '
+               'poll observed Pending (delegation, incl. results inspected with is_pending/is_ready), a hand-out or wake of the task waker, or '
+               'a coop budget call; three bodies whose Pending rests on a data-dependent loop-remainder / generator protocol are frozen with '
+               'the reason read in the source (rules/pending.py). A stream that answers Pending out of thin air parks its query forever. '
+               'Liveness of streams at run time beyond this is not decided.')
 ASSUMPTIONS = ['need_produce_result_in_final(jt) is the operators\' actual final-phase emission table (its own soundness is C05)']
 
 P = 'datafusion_physical_plan::joins::'
@@ -115,6 +121,10 @@ def run(ctx):
                 n += 1
                 check_declared(ctx, 'declared-emission', opname, em, fin, ctx.loc(f.fn(fnp)))
     ctx.floor('declared-emission', 'join operators deriving EmissionType from the join type', n, 2)
+    # (c) a stream may answer Pending only if something will wake it again (whole engine: every poll body that constructs Poll::Pending)
+    scope = lambda c: (c[1:] if c.startswith('<') else c).startswith(('datafusion_physical_plan', 'datafusion_datasource', 'datafusion_execution',
+                                                                     'datafusion_common_runtime', 'datafusion::')) and '::test::' not in c
+    pending.sweep(ctx, 'pending-needs-wake-source', scope, floor=65)
     # selftest
     import common
     st = ctx.st
@@ -122,3 +132,7 @@ def run(ctx):
     probe.known = []
     bad = check_declared(probe, 'st', 'Seeded', {'LeftAnti': 'Incremental', 'Inner': 'Incremental'}, {'LeftAnti': True, 'Inner': False}, 'selftest')
     ctx.selftest('declared-vs-actual rule flags Incremental + final-phase-only', bad == 1)
+    pending.sweep(probe, 'st-pending', lambda c: 'dfscan_selftest::pendings' in c, accepted={})
+    keys = [v['key'] for v in probe.viol if v['key'].startswith('st-pending|')]
+    ctx.selftest('pending rule reports Pending out of thin air (bad_thin_air, F::poll) and accepts delegation / waker registration',
+                 any('bad_thin_air' in k for k in keys) and any('pendings::F as' in k for k in keys) and not any('good_' in k for k in keys))
